@@ -34,6 +34,7 @@ import (
 // ---------------------------------------------------------------------------
 
 const mainURI = "file:///a.sql"
+const otherURI = "file:///b.sql"
 
 type snap struct {
 	content string
@@ -68,17 +69,18 @@ func (r *frameReader) Read(p []byte) (int, error) {
 }
 
 type runResult struct {
-	panicked  bool
-	panicVal  string
-	stack     string
-	fetched   int // frames handed to the server when Run ended
-	eof       bool
-	runErr    error
-	out       []byte
-	snaps     map[int]snap // k -> state after frames 0..k-1
-	content   string
-	open      bool
-	serverVer int
+	panicked bool
+	panicVal string
+	stack    string
+	fetched  int // frames handed to the server when Run ended
+	eof      bool
+	runErr   error
+	out      []byte
+	snaps    map[int]snap // k -> state after frames 0..k-1
+	content  string
+	open     bool
+	oContent string // otherURI
+	oOpen    bool
 }
 
 func runHistory(steps []step) (res runResult) {
@@ -109,9 +111,7 @@ func runHistory(steps []step) (res runResult) {
 	res.out = out.Bytes()
 	if !res.panicked {
 		res.content, res.open = srv.Documents().GetContent(mainURI)
-		if d, ok := srv.Documents().Get(mainURI); ok {
-			res.serverVer = d.Version
-		}
+		res.oContent, res.oOpen = srv.Documents().GetContent(otherURI)
 	}
 	return res
 }
